@@ -570,6 +570,7 @@ class Unit:
         self.consts = {}    # name -> (Type, expr)
         self.funcs = []     # FuncDef
         self.includes = []
+        self.globals = []   # namespace-scope constants: (type, name, init expr, file, line)
         self.explicit_inst = []
         self.pp = []        # other preprocessor lines seen (file, line, text)
 
@@ -609,6 +610,18 @@ class TopParser(Parser):
             return
         if self.at(';'):
             self.next(); return
+        if self.at('static') and self.at('const', 1):
+            # namespace-scope constant:  static const T name {init};  /  = init;
+            self.next()
+            ty = self.parse_type()
+            name = self.ident('constant name')
+            if self.accept('{'):
+                init = self.parse_assign(); self.expect('}')
+            else:
+                self.expect('=', 'constant initialiser'); init = self.parse_assign()
+            self.expect(';', 'constant end')
+            self.u.globals.append((ty, name, init, tok.file, tok.line))
+            return
         if self.at('extern') and self.at('template', 1):
             self.next(); self.next(); self.expect('class')
             self.parse_type(); self.expect(';')
